@@ -50,10 +50,11 @@ Definition run_search (v : val) : val :=
   let max_matches := as_option as_nat (fld 13 v) in
   let path := as_option as_bytes (fld 14 v) in
   let npre := as_nat (fld 15 v) in
+  let pterm := if as_bool (fld 16 v) then Some 0%N else None in
   let lt := 10%N in
   let cfg := mk_cfg capacity lt alloc mode in
   let scfg := mk_std_cfg mode max_matches 0 path [lt] (Some [45; 45]%N) dbg_byte in
-  let sum k := mk_sum_cfg mode k max_matches true path [lt] [58%N] in
+  let sum k := mk_sum_cfg mode k max_matches true path [lt] [58%N] pterm in
   let fuel := length stream + 3 in
   let search {St} (sink : St -> event -> St * bool) (s0 : St) : (St * list event) * outcome :=
     match strategy with
@@ -63,7 +64,7 @@ Definition run_search (v : val) : val :=
                       (length stream) (s0, []), ODone)
     end in
   let '((_, tr), o) := search (rec_sink stop bin_reply) 0 in
-  let '((st, _), _) := search (std_step scfg (simple_render path lt)) (mk_std 0 0 None []) in
+  let '((st, _), _) := search (std_step scfg (simple_render path pterm lt)) (mk_std 0 0 None []) in
   let sum_out k := ms_out (fst (fst (search (sum_step (sum k)) (mk_sum 0 None [])))) in
   VL [ of_list enc_event (rev tr); enc_outcome o; of_bytes (ss_out st);
        of_bytes (sum_out SKCount); of_bytes (sum_out SKPathWithMatch);
